@@ -174,12 +174,26 @@ class Exec(ExprMixin, CallMixin):
         if fi.is_generator:
             yt = parse_type(contract.yields or "list[int]")
             st.ghost["yield"] = default_value(yt)
-        for r in contract.requires:
+        for r in contract.requires if not contract.start_at else []:
             st.assume(self.eval_spec(r, st, st.locals, st.old))
         for r in contract.entry_lemmas:
             st.assume(self.eval_spec(r, st, st.locals, st.old))
         self.family_cls = family_cls
-        outs = self.exec_block(fi.node.body, st)
+        body = fi.node.body
+        if contract.start_at:
+            idx = [i for i, s_ in enumerate(body) if ast.unparse(s_).split("\n")[0].startswith(contract.start_at)]
+            if len(idx) != 1:
+                raise Unsupported(f"region start {contract.start_at!r} not found exactly once at the top level of {fi.qualname}")
+            body = body[idx[0]:]
+            self.used_anchors.add("start_at")
+            for nm, ts_ in contract.locals.items():
+                v = from_consts(parse_type(ts_), nm)
+                self.assume_wellformed(st, v)
+                st.locals[nm] = v
+            st.old = st.copy()
+            for r in contract.requires:
+                st.assume(self.eval_spec(r, st, st.locals, st.old))
+        outs = self.exec_block(body, st)
         self.cover = {"exits": 0, "reachable": 0, "unknown": 0}
         for s2, o in outs:
             self.check_exit(s2, o, fi, contract)
